@@ -363,7 +363,7 @@ class Reject(Exception):
         self.line, self.why = line, why
 
 
-def ac_expected(table, flags, defcb, nodes, nlines, cb_refuses):
+def ac_expected(table, flags, defcb, nodes, nlines, cb_refuses, def_refuses=False):
     """the documented behaviour on the document VALUE `nodes` (line numbers filled in by render_ac)"""
     ci = bool(flags & QAC_CASEINSENSITIVE)
     ex = Expect()
@@ -400,7 +400,8 @@ def ac_expected(table, flags, defcb, nodes, nlines, cb_refuses):
         if who is None:
             return
         ex.events.append((who, otype, cur if known_scope else None, secs if known_scope else None, level, list(parents), list(argv)))
-        if who == "M" and cb_refuses(otype, argv):
+        # def_refuses: the default handler refuses the same arguments as the registered callback
+        if (who == "M" or def_refuses) and cb_refuses(otype, argv):
             raise Reject(line, "callback")
 
     def go(nodes, cur, secs, level, parents, known_scope):
@@ -451,7 +452,8 @@ def harness_cb_refuses(otype, argv):
 
 
 def ac_op(flags, defcb, doc, table):
-    return "ac %x %d %s %s" % (flags, 1 if defcb else 0, hexs(doc), " ".join(o.word() for o in table))
+    """defcb: False/0 none, True/1 a default handler that never refuses, 2 one that refuses like the callback"""
+    return "ac %x %d %s %s" % (flags, int(defcb), hexs(doc), " ".join(o.word() for o in table))
 
 
 def parse_ac_result(line):
